@@ -16,7 +16,7 @@ RULE = ("case 'sig' = (format out of dbc, dbf, sym, kcd, json, xls, arxml; for j
         "Motorola signals at any non-overlapping placement, standard and extended ids, simple multiplexing; one of its signals): the "
         "position number stored in the file (extracted by a mini-parser for dbc, dbf, sym, kcd, json), and start/width/byte order of "
         "the signal after reading the file back. case 'frame' = presence of the frame (identifier + format) after the round trip. "
-        "30 % of the extended frames are flagged J1939. Half of the matrices are built with the extended flag as the integer 1 (as the readers set it), signed signals name negative raw values in their value tables, identifier numbers occur in both formats, frames longer than 8 bytes in every format. 40 % of the matrices name one to three of their ECUs, 20 % one frame and 20 % one signal with a word that contains the text of a keyword, column heading, tag or attribute of one of the file formats (BRIDGE, VIDEO, Motor_ID, CycleCtrl, ValueSrv, BO_Gw, SG_1, Mux, Var, Type, Message, Producer, START_MSG ...); three matrices in ten have plain signals (factor 1, offset 0, no unit, mostly no value table, some shrunk to 1 bit flags, some with explicit limits 0..1 / 0..0) for which the writers omit optional elements; one matrix in four has names of 33..64 characters - longer than a DBC symbol, so that the DBC writer cuts them and restores them from attribute statements - for a third, two thirds or all of its signals and frames and some of its ECUs, in a third of these matrices the long signal names of a frame are equal in their first 32 characters (..._Bank1 / ..._Bank2); one matrix in six has names that differ in capitalisation only (two signals of a frame, two frames, two ECUs); one matrix in six (not XLS) has a frame without any signal (one frame stripped, a further trigger frame, or no signals at all); half of the JSON matrices are written by the writer's default compact export (jsonExportAll off, with and without jsonNativeTypes) instead of the complete one; one matrix in twelve is written and read through a file path (dumpp/loadp, format taken from the extension) instead of a byte buffer. case 'bus' = a cluster of 1..3 buses for KCD/ARXML; in KCD the names of frames and signals are local to a bus in half of the clusters (the same names on every bus), and most clusters with several buses carry one or two routed frames: a frame of one bus (same identifier, format and name) also on another bus, as an equal copy, as the very same Frame object, or (KCD) with other signals and length. Non-trivial = distinct case with a Motorola signal or a signal wider than one bit.")
+        "30 % of the extended frames are flagged J1939. Half of the matrices are built with the extended flag as the integer 1 (as the readers set it), signed signals name negative raw values in their value tables, identifier numbers occur in both formats, frames longer than 8 bytes in every format. 40 % of the matrices name one to three of their ECUs, 20 % one frame and 20 % one signal with a word that contains the text of a keyword, column heading, tag or attribute of one of the file formats (BRIDGE, VIDEO, Motor_ID, CycleCtrl, ValueSrv, BO_Gw, SG_1, Mux, Var, Type, Message, Producer, START_MSG ...); three matrices in ten have plain signals (factor 1, offset 0, no unit, mostly no value table, some shrunk to 1 bit flags, some with explicit limits 0..1 / 0..0) for which the writers omit optional elements; one matrix in four has names of 33..64 characters - longer than a DBC symbol, so that the DBC writer cuts them and restores them from attribute statements - for a third, two thirds or all of its signals and frames and some of its ECUs, in a third of these matrices the long signal names of a frame are equal in their first 32 characters (..._Bank1 / ..._Bank2); one matrix in five has names that end or begin like a token of a format's grammar when it stands alone (the DBC multiplexer indicators M / m2 / m12M as in EngineRPM, FanPWM, Area_m2; exponent letters, SYM's h, underscores, digits, statement keywords) for a third, two thirds or all of its signals (plain, multiplexer, multiplexed) and some of its frames, also in the clusters; one matrix in six has names that differ in capitalisation only (two signals of a frame, two frames, two ECUs); one matrix in six (not XLS) has a frame without any signal (one frame stripped, a further trigger frame, or no signals at all); half of the JSON matrices are written by the writer's default compact export (jsonExportAll off, with and without jsonNativeTypes) instead of the complete one; one matrix in twelve is written and read through a file path (dumpp/loadp, format taken from the extension) instead of a byte buffer. case 'bus' = a cluster of 1..3 buses for KCD/ARXML; in KCD the names of frames and signals are local to a bus in half of the clusters (the same names on every bus), and most clusters with several buses carry one or two routed frames: a frame of one bus (same identifier, format and name) also on another bus, as an equal copy, as the very same Frame object, or (KCD) with other signals and length. Non-trivial = distinct case with a Motorola signal or a signal wider than one bit.")
 PARTIAL = ["only the field kernels (position and identifier numbers) carry theorems; file assembly, XML plumbing and reference "
            "resolution are tied by this correspondence check only",
            "multi-bus files (KCD/ARXML, 2..3 buses) are compared per bus on the layout normal form (case 'bus')",
@@ -47,6 +47,7 @@ def gen(rng, tier, shard, nshards, rich=False):
         jopt = None
         if not rich:
             # (layout stream only: the value stream C07 keeps its matrices and the complete JSON export)
+            token_edge_names(rng, desc, fmt)
             case_twins(rng, desc, fmt)
             empty_frames(rng, desc, fmt)
             if fmt == "json" and rng.random() < 0.5:
@@ -190,6 +191,43 @@ def keyword_names(rng, desc, fmt, wn="lsb", rich=False):
             s["name"] = w
 
 
+# The generated names are s0, g1_0, mx, F1 ...: they all end in a digit or a small letter behind a letter.  Real names end (and begin) in
+# anything an identifier may hold, and quite often in the very letters that are a token of a format's grammar when they stand alone
+# behind (or in front of) a name: the multiplexer indicators of a DBC SG_ line (M, m2, m12M: EngineRPM, FanPWM, Torque_Nm, Area_m2,
+# Volume_m3), the exponent of a number (_e3, E), the hexadecimal mark of SYM (h), an underscore, a digit, a statement keyword.
+NAME_TAILS = ["M", "M", "m0", "m3", "m12", "m3M", "m0M", "RPM", "PWM", "_M", "_m2", "_m3", "_Nm", "_mA", "_kmh", "_degC", "_V", "_pct", "_E", "E", "_e3", "e3",
+              "_0", "0", "7", "_", "__", "_X", "h", "_1h", "_Hz", "_m", "m", "_mM", "Mm1"]
+NAME_HEADS = ["M", "M_", "m3_", "m3M_", "m", "_", "__", "SG_", "BO_", "Var", "Mux", "ID", "E", "e3_", "x", "X_", "h_", "RPM_", "m12"]
+
+
+def token_edge_names(rng, desc, fmt, p_matrix=0.2):
+    """names that end or begin like a token of a format's grammar (in place): in one matrix out of five a third, two thirds or all of
+    the signals - plain ones, multiplexers and multiplexed ones alike - and some of the frames get a tail (three out of four) or a
+    head out of NAME_TAILS / NAME_HEADS added to their name, as long as the names stay distinct where the format wants them distinct."""
+    if rng.random() >= p_matrix:
+        return
+    p = rng.choice([0.3, 0.6, 1.0])
+
+    def edge(name):
+        return name + rng.choice(NAME_TAILS) if rng.random() < 0.75 else rng.choice(NAME_HEADS) + name
+
+    for f in desc["frames"]:
+        if rng.random() < p / 3:
+            new = edge(f["name"])
+            if not any(g["name"].lower() == new.lower() for g in desc["frames"]):
+                f["name"] = new
+        for s in f["signals"]:
+            if rng.random() >= p:
+                continue
+            new = edge(s["name"])
+            taken = {t["name"].lower() for g in (desc["frames"] if fmt == "arxml" else [f]) for t in g["signals"]}
+            if new.lower() not in taken:
+                s["name"] = new
+
+
+MUX_TAIL = re.compile(r"(M|m\d+M?)$")
+
+
 def case_variants(name):
     """the other spellings of `name` that differ from it in capitalisation only"""
     out = []
@@ -296,6 +334,7 @@ def gen_bus(rng):
         d = R.gen_case_matrix(rng, fmt, False)
         long_names(rng, d, fmt)
         keyword_names(rng, d, fmt)
+        token_edge_names(rng, d, fmt)
         if prefix:
             for f in d["frames"]:
                 f["name"] = name + "_" + f["name"]
@@ -475,6 +514,14 @@ def features(case, impl):
         yield "matrix:keyword-in-frame-name"
     if any(s["name"] in NAME_WORDS for f in fr for s in f["signals"]):
         yield "matrix:keyword-in-signal-name"
+    for f in fr:
+        for s in f["signals"]:
+            if MUX_TAIL.search(s["name"]) and not re.fullmatch(r"[sg][\d_]+", s["name"]):
+                yield "matrix:signal-name-ends-like-mux-indicator/%s/%s" % (c["fmt"], "plain" if s["mux"] is None else "multiplexer" if s["mux"] == "Multiplexor" else "multiplexed")
+            if s["name"][:1] in "_Mm" and s["name"] != "mx":
+                yield "matrix:signal-name-begins-like-token/" + c["fmt"]
+        if MUX_TAIL.search(f["name"]):
+            yield "matrix:frame-name-ends-like-mux-indicator/" + c["fmt"]
     twin = any(f["id"] == g["id"] and f["ext"] != g["ext"] for f in fr for g in fr)
     if twin:
         yield "matrix:same-number-in-both-formats"
